@@ -44,8 +44,8 @@ def plan(tier):
     g.append({"variant": "guard", "name": "guard-under-hostile", "workers": 1, "cases": hc, "params": {"mon": "hostile"}, "env": {"VGUARD_LAYOUT": "under"}})
     g.append({"variant": "guard", "name": "guard-strict-hostile", "workers": 1, "cases": hc, "params": {"mon": "hostile", "noblas": True},
               "env": {"VGUARD_LAYOUT": "strict"}})
-    g.append({"variant": "asan", "name": "asan-large", "workers": 2, "cases": 6 if q else 40, "params": {"mon": "large"}})
-    g.append({"variant": "guard", "name": "guard-large", "workers": 1, "cases": 6 if q else 40, "params": {"mon": "large"}})
+    g.append({"variant": "asan", "name": "asan-large", "workers": 2, "cases": 3 if q else 60, "params": {"mon": "large"}})
+    g.append({"variant": "guard", "name": "guard-large", "workers": 1, "cases": 3 if q else 60, "params": {"mon": "large"}})
     return g
 
 
@@ -306,19 +306,68 @@ def run(ctx):
             x2 = matrix(1.0, (N, rng.randint(1, 3))); return "misc.pack2", lambda: misc_solvers.pack2(x2, d.asdict(), 0)
 
         def op_blas(rng):
+            """hostile BLAS calls from the spec generator (boundary boxes / illegal values), ints perturbed into small
+            negative and off-by-one values; oracle: no crash + (footprint oracle) an accepted call fits"""
             name = rng.choice(blasspec.NAMES)
             call = blasspec.gen_call(rng, name, rng.choice([2, 2, 3, 1]))
-            return "blas." + name, lambda: _run_blas(call)
+            if rng.random() < 0.5:
+                ints = [k_ for k_, v_ in call["args"].items() if isinstance(v_, int) and not isinstance(v_, bool)]
+                for k_ in rng.sample(ints, min(len(ints), rng.randint(1, 2))):
+                    call["args"][k_] = call["args"][k_] + rng.choice([-3, -2, -1, 1, 2, 5])
+            DET.update(blasspec.describe(call))
+            def f():
+                objs = {b: blasspec.to_cvxopt(v) for b, v in call["bufs"].items()}
+                pos, kw = blasspec.invocation(call, objs)
+                getattr(blas, name)(*pos, **kw)
+                try:
+                    fit = blasspec.fits(call)
+                except Exception:
+                    fit = True
+                assert fit, "accepted-call-outside-footprint"
+            return "blas." + name, f
 
-        def _run_blas(call):
-            fits = blasspec.fits(call)
-            args, kw = blasspec.build_args(call) if hasattr(blasspec, "build_args") else (None, None)
-            if args is None:
-                raise NotImplementedError("no build_args")
-            getattr(blas, call["name"] if isinstance(call, dict) else call.name)(*args, **kw)
-            return fits
+        def op_lapack(rng):
+            """size-inconsistent LAPACK calls: square systems with n, nrhs, ld, offsets drawn from small boxes"""
+            tc = rng.choice("dz")
+            n = rng.randint(0, 4)
+            A = rmat(rng, tc, 5); B = rmat(rng, tc, 5)
+            fn = rng.choice(["gesv", "getrf", "getrs", "potrf", "potrs", "posv", "sysv", "trtrs", "gels", "geqrf", "syev", "gesvd", "lacpy",
+                             "getri", "potri", "trtri", "heev", "gesdd"])
+            kw = {k_: ival(rng) for k_ in rng.sample(["n", "nrhs", "ldA", "ldB", "offsetA", "offsetB", "m"], rng.randint(0, 4))}
+            ip = matrix(0, (rng.randint(0, 5), 1), "i")
+            W = matrix(0.0, (rng.randint(0, 5), 1))
+            DET.update({"A": A, "B": B, "kw": kw, "ipiv": len(ip), "W": len(W)})
+            def f():
+                F = getattr(lapack, fn)
+                kk = dict(kw)
+                if fn in ("gesv", "posv", "sysv", "trtrs", "gels", "potrs", "lacpy"):
+                    if fn == "gesv" and rng.random() < 0.5: kk["ipiv"] = ip
+                    kk = {a: b for a, b in kk.items() if a in F.__doc__}
+                    F(A, B, **kk)
+                elif fn == "getrs":
+                    kk = {a: b for a, b in kk.items() if a in F.__doc__}
+                    F(A, ip, B, **kk)
+                elif fn == "getrf":
+                    kk = {a: b for a, b in kk.items() if a in ("m", "n", "ldA", "offsetA")}
+                    F(A, ip, **kk)
+                elif fn == "getri":
+                    kk = {a: b for a, b in kk.items() if a in ("n", "ldA", "offsetA")}
+                    F(A, ip, **kk)
+                elif fn in ("syev", "heev"):
+                    kk = {a: b for a, b in kk.items() if a in ("n", "ldA", "offsetA")}
+                    F(A, W, **kk)
+                elif fn in ("gesvd", "gesdd"):
+                    kk = {a: b for a, b in kk.items() if a in ("m", "n", "ldA", "offsetA")}
+                    F(A, W, **kk)
+                elif fn == "geqrf":
+                    kk = {a: b for a, b in kk.items() if a in ("m", "n", "ldA", "offsetA")}
+                    F(A, matrix(0.0, (len(W), 1), tc), **kk)
+                else:
+                    kk = {a: b for a, b in kk.items() if a in ("n", "ldA", "offsetA")}
+                    F(A, **kk)
+            return "lapack." + fn, f
 
-        gens = [op_index, op_index, op_construct, op_base, op_base, op_misc]
+        gens = [op_index, op_index, op_construct, op_base, op_base, op_misc] + ([op_blas, op_blas, op_lapack] if (blasspec and not noblas) else [op_lapack])
         def one(c):
             rng = c.rng
             g = gens[rng.randrange(len(gens))]
@@ -335,7 +384,7 @@ def run(ctx):
             except EXC as e:
                 ctx.count("hostile.rejected"); out = type(e).__name__
             except AssertionError as e:
-                c.check(); c.fail("hostile:%s:%s" % (name, str(e).replace(" ", "-")), "structural damage after %s: %s" % (name, e)); out = "damage"
+                c.check(); c.fail("hostile:%s:%s" % (name, str(e).replace(" ", "-")), "%s: %s" % (name, e), args=dict(DET)); out = "damage"
             c.check()
             c.cls("hostile", name, out)
             if c.k < 3:
@@ -393,7 +442,7 @@ for (pname, val) in plist:
             modname, fname, ps = targets[(c.k * ctx.nworkers + ctx.worker) % len(targets)] if ctx.tier == "thorough" else targets[rng.randrange(len(targets))]
             plist = [(p, v) for p in ps for v in BIG]
             if ctx.tier == "quick":
-                plist = rng.sample(plist, min(12, len(plist)))
+                plist = rng.sample(plist, min(5, len(plist)))
             c.desc.update({"fn": "%s.%s" % (modname, fname)})
             i = 0
             while i < len(plist):
@@ -411,7 +460,7 @@ for (pname, val) in plist:
                     pname, val = begun[-1].split()[1], begun[-1].split()[2]
                     key = classify_crash({"desc": {"fn": "%s.%s" % (modname, fname)}}, p.stderr, p.returncode)
                     if key.startswith(("crash", "asan", "guard")):
-                        key = key + ":" + pname
+                        key = "large-" + key + ":" + pname
                     ctx.count("large.calls")
                     c.fail(key, "%s.%s(%s=%s) killed the interpreter (rc %s): %s" % (modname, fname, pname, val, p.returncode, p.stderr[-600:]))
                     i += done + 1
